@@ -19,7 +19,7 @@ const verifKey2D = "87a350a789a74201b956d00366ad8dab3671595e736b6042b2fea4cae6f0
 type verifBadRNG struct {
 	TestServerRNG
 	prime int // 0 = the real prime; 1 = p+2 (composite); 2 = p>>1 (2047 bits); 3 = 2p+1 style 2049 bits
-	ga    int // 0 = honest; 1 = 0; 2 = 1; 3 = p-1; 4 = p; 5 = 2^1984; 6 = p-2^1984
+	ga    int // 0 = honest; 1 = 0; 2 = 1; 3 = p-1; 4 = p; 5 = 2^1984; 6 = p-2^1984; 7, 8 = g^1, g^2 (a consistent but tiny exponent: below the 2^1984 safety margin)
 }
 
 func (r verifBadRNG) DhPrime() (*big.Int, error) {
@@ -49,6 +49,10 @@ func (r verifBadRNG) GA(g int, dhPrime *big.Int) (a, ga *big.Int, err error) {
 	}
 	a = big.NewInt(5)
 	lim := new(big.Int).Lsh(big.NewInt(1), crypto.RSAKeyBits-64)
+	if r.ga >= 7 {
+		a = big.NewInt(int64(r.ga - 6))
+		return a, new(big.Int).Exp(big.NewInt(int64(g)), a, dhPrime), nil
+	}
 	switch r.ga {
 	case 1:
 		ga = big.NewInt(0)
@@ -137,7 +141,7 @@ func VerifC10_mitm() {
 		case 5:
 			rng.prime = 1 + verifrt.Fork("prime", 3)
 		case 6:
-			rng.ga = 1 + verifrt.Fork("ga", 6)
+			rng.ga = 1 + verifrt.Fork("ga", 8)
 		}
 		r := &verifRun{p: p}
 		client := NewExchanger(verifEnd{p, true}, 2).WithTimeout(timeout).WithRand(&verifRand{1}).Client([]PublicKey{key.Public()})
